@@ -18,7 +18,10 @@ CLAIMED = {
     "C07": dict(
         text="Lean 4 theorems over the exact reading of the kinematic core (time-slice congruent to pos+vel*dt mod L and inside the box; "
              "point-mass chain machine: one moving unit, conserved speed, time stamps equal the event time, no position jump, "
-             "non-decreasing commit times for every event list). The same definitions in binary64 replay every recorded real run of "
+             "non-decreasing commit times for every event list); the two shipped end-of-chain handlers keep the squared speed and fire at the "
+             "last end-of-chain time plus the chain time (C07Eoc); for composite objects the one-chain clause (moving point masses are one "
+             "leaf or all leaves of one object, one velocity, conserved squared speed) is proved on the two-level model (C12Chain). "
+             "The same definitions in binary64 replay every recorded real run of "
              "the point-mass configurations bit for bit (whole global state after every commit) and every time-slice of every "
              "committed out-state of all 19 shipped + generated configurations; the property itself is evaluated by an oracle on "
              "the recorded states of those runs.",
@@ -112,7 +115,10 @@ CLAIMED = {
     "C19": dict(
         text="Lean 4 theorem resume_same: a deterministic client of the scheduler (the mediator with everything it owns) sees the same "
              "answers for ever from two observationally equal scheduler states, for every client and every pair of implementations; "
-             "observational equality of the re-built heap is C06's pickle_id. Correspondence/oracle on real runs: dumping variants of "
+             "and pickle_obsEq / resume_same_heap (JF.Props.C19Heap): for every protocol-respecting history the unpickled heap-scheduler "
+             "model (different allocated size, different garbage) is observationally equal to the original for ALL future operation "
+             "lists, same winner among exactly simultaneous events included, so the reduction is closed for the model. "
+             "Correspondence/oracle on real runs: dumping variants of "
              "shipped configurations (C potentials, cells, composite objects; heap and list scheduler) are dumped at every dumping event, "
              "each dump is resumed in a fresh interpreter through the repository's own resume.main(), and the continuation is compared "
              "bit for bit (handlers, candidate times, out-states, whole global state, trash lists, samples, final random state) with "
@@ -231,7 +237,9 @@ CLAIMED = {
              "pass, end of chain in leaf and root mode, both switcher directions, start, snap): RootConsistent (root velocity = weighted "
              "sum of member velocities, absent iff all absent; root position advanced to any time = weighted barycentre of the members "
              "with explicit image shifts) is preserved by every admissible event and hence by every run; the dipole and water creators' "
-             "geometry satisfies it initially. Correspondence: every recorded commit of every composite configuration (shipped + generated "
+             "geometry satisfies it initially; JF.Props.C12Chain: a system-level ONE-CHAIN invariant (ghost leaf/root mode) is preserved by every "
+             "weakly admissible event and implies the formerly assumed at-rest/which-leaves-move facts, so RootConsistent holds for every "
+             "history whose events satisfy only index-level admissibility. Correspondence: every recorded commit of every composite configuration (shipped + generated "
              "+ small-speed variants) is classified and recomputed by the binary64 model bit for bit (positions, velocities, time stamps of "
              "roots and leaves); creators bit for bit; oracle oracle_c12 on recorded states and on directly created molecules.",
         note="Exact reading replaces the 1e-13 threshold by = 0 (stated in the file); float drift between a root and its members is "
@@ -243,7 +251,10 @@ CLAIMED = {
         text="Lean 4 theorems: decision kernel (both comparison styles accept exactly draws below max(0,q)), the accepting set of random() has "
              "Lebesgue measure max(0,q)/b, thinned rate b*(q+/b)=q+, summed bound dominates, an unconfirmed event returns the proposal state "
              "unchanged with no lifting insert (for every scalar type, so also binary64), the lifting table sums to zero; the 1/r bound: "
-             "positivity iff, reduction of domination to unit charges on the positive half. Correspondence: all six real handlers' "
+             "positivity iff, reduction of domination to unit charges on the positive half; the piecewise-constant bounding family "
+             "(JF.Props.C04Piecewise): cache discipline of one handler object over every history (cached rate iff genuine proposal), "
+             "decision kernel, accepting set/measure, thinned-rate identity, per-stretch domination under the named hypothesis "
+             "LocalBound. Correspondence: all six real handlers' "
              "send_out_state vs the model bit for bit (decision, warning, uniform limit, potential calls, lifting inserts, out-state) over "
              "all rate regimes and draw classes; C 1/r routine bit-exact. DOMINATION (bound >= true rate everywhere, margin 1e-4) is a "
              "hypothesis of the theorems and is searched numerically on the freshly compiled C routines (corners/edges down to 1e-8 L, "
